@@ -394,6 +394,20 @@ def est_trace(tid, name, entry, hist, dataA, dataB, layout, dataC=None):
         _, raised = rec.call("fit", fn, args, obj=o, key=key(st["d"], wy, st["n"]), relation="refit" if i > 0 else "repeat", out_fn=fit_out)
         if raised:
             break
+        # another INSTANCE of the same class is fitted on other data in between (state shared through class attributes, module
+        # globals or mutable default arguments would leak into the follow-up calls of `o`)
+        if (i + len(hist)) % 2 == 0:
+            try:
+                other = factory("large" if st["n"] == "small" else "small")
+                fn_o, _ = fit(other, data["B" if st["d"] != "B" else "C"], st["y"], base_layout)
+                with warnings.catch_warnings():
+                    warnings.simplefilter("ignore")
+                    fn_o()
+                    for _, op in ops:
+                        f2_, _a = op(other, data["B" if st["d"] != "B" else "C"], base_layout)
+                        f2_()
+            except Exception:
+                pass
         # follow-up calls after EVERY fit of the history (lazily cached state must not survive a refit)
         for opn, op in ops:
             fn2, a2 = op(o, data[st["d"]], layout)
